@@ -5,8 +5,11 @@
 
   Reading of the statement (DESIGN §4 C18):
   * "validly signed" is C02's statement (exactly one signature, allowed algorithm, trusted fitting key of
-    the provider's published set, over exactly the payload that is read); "own issuer" = the issuer the
-    request was addressed to; expiry / iat / auth_time of a hint are irrelevant for logout.
+    the key set CONFIGURED FOR HINTS, over exactly the payload that is read).  The key set configured for hints
+    is the one the deployment passed with `WithIDTokenHintKeySet`, and without that option the provider's own
+    published keys (the keys it signs ID tokens with) - never the key set configured for ACCESS tokens
+    (`WithAccessTokenKeySet`), unless the same set was also configured for hints.
+    "own issuer" = the issuer the request was addressed to; expiry / iat / auth_time of a hint are irrelevant for logout.
   * proven client = the hint's `azp`, without a hint the `client_id` parameter.
   * a redirect target is the default logout URI, or the requested URI if it is registered for the proven
     client (exactly, or via a glob of a client that opted in; `path.Match` is an oracle); with a `state`
@@ -14,7 +17,8 @@
     same URL in front of the query, same fragment, every parameter of the URI's own query still there, the
     settings of its query that Go's decoder does not read (`a;b=1`, a malformed escape) still there unchanged.
   * the session handed to the storage is (hint subject or "", proven client or "").
-  * a request that satisfies all rules must not be rejected ("an expired hint is still accepted").
+  * a request that satisfies all rules must not be rejected ("an expired hint is still accepted") - unless the storage
+    refuses to terminate the session: then rejecting is right and redirecting is not (nothing was terminated).
 -/
 import OidcModel.Spec.C02
 import OidcModel.Model.Session
@@ -23,7 +27,9 @@ namespace C18
 
 structure Cfg where
   issuer : String                 -- issuer the request is addressed to
-  keys : KeySet                   -- the provider's published key set
+  keys : KeySet                   -- the provider's own published key set (the keys it signs with)
+  hintKeys : Option KeySet := none          -- `WithIDTokenHintKeySet(Y)`: a key set configured for hints (the last one given)
+  accessTokenKeys : Option KeySet := none   -- `WithAccessTokenKeySet(X)`: configured for access tokens; says nothing about hints
   algs : List String := []        -- allow-list configured for hints ([] = library default)
   clients : List OPClient
   defaultURI : String
@@ -34,6 +40,7 @@ structure Req where
   plu : String                    -- post_logout_redirect_uri
   state : String
   malformed : Bool := false       -- the form could not be parsed / decoded at all (the fields above are then empty)
+  termRefused : Bool := false     -- the storage reported a failure when it was asked to terminate the session
 
 /-- library behaviour the statement refers to -/
 structure Orc where
@@ -47,18 +54,30 @@ inductive Obs
 
 def claimsOf (t : Token) : Option Claims := t.middle.bind (·.claims)
 
+/-- the key set a hint has to verify under: the one configured for hints, else the provider's own published keys;
+    the access-token key set plays no part -/
+def Cfg.hintKeySet (cfg : Cfg) : KeySet := cfg.hintKeys.getD cfg.keys
+
 /-- claims of a hint that is validly signed by this provider and names this issuer -/
 def hintProven (cfg : Cfg) (t : Token) : Option Claims :=
   match claimsOf t with
-  | some c => if (C02.monitor cfg.algs cfg.keys t (some c)).isNone && c.iss == cfg.issuer then some c else none
+  | some c => if (C02.monitor cfg.algs cfg.hintKeySet t (some c)).isNone && c.iss == cfg.issuer then some c else none
   | none => none
+
+/-- a hint that does not verify under the hint key set does verify under the key set configured for access tokens
+    (only used to NAME the defect) -/
+def underAccessTokenKeys (cfg : Cfg) (t : Token) (c : Claims) : Bool :=
+  match cfg.accessTokenKeys with
+  | some x => (C02.monitor cfg.algs x t (some c)).isNone
+  | none => false
 
 /-- why a hint must not be believed -/
 def hintDefect (cfg : Cfg) (t : Token) : Option String :=
   match claimsOf t with
   | none => some "hint:unreadable"
   | some c =>
-    if (C02.monitor cfg.algs cfg.keys t (some c)).isSome then some "hint:untrusted-signature"
+    if (C02.monitor cfg.algs cfg.hintKeySet t (some c)).isSome then
+      some (if underAccessTokenKeys cfg t c then "hint:trusted-only-by-access-token-keyset" else "hint:untrusted-signature")
     else if c.iss != cfg.issuer then some "hint:foreign-issuer" else none
 
 def lookup (cfg : Cfg) (id : String) : Option OPClient := cfg.clients.find? (·.id == id)
@@ -148,7 +167,7 @@ def monitor (cfg : Cfg) (o : Orc) (req : Req) : Obs → Option String
   | .panic => some "panic"
   | .rejected term =>
     if !term.isEmpty then some "rejected:session-terminated"
-    else if mustAccept cfg o req then some "rejected:valid-logout-request"
+    else if mustAccept cfg o req && !req.termRefused then some "rejected:valid-logout-request"
     else none
   | .redirect loc dec term =>
     if req.malformed then some "malformed-request-accepted" else
